@@ -1187,6 +1187,29 @@ func (r *runner) history(univ, nops int) {
 	}
 }
 
+// smallShape1024: at most ~80 members (dense words, sparse words and empty words mixed), so that the
+// many calls of a concurrent round stay small events
+func (r *runner) smallShape1024() []int {
+	m := map[int]bool{}
+	for k := 0; k < 16; k++ {
+		var c int
+		switch r.rng.Intn(4) {
+		case 0:
+			c = 0
+		case 1:
+			c = 1 + r.rng.Intn(3)
+		case 2:
+			c = 8 + r.rng.Intn(4) // around the default threshold
+		default:
+			c = r.rng.Intn(7)
+		}
+		for _, j := range r.rng.Perm(64)[:c] {
+			m[64*k+j] = true
+		}
+	}
+	return sortedKeys(m)
+}
+
 func main() {
 	plans := flag.String("plans", "", "directory of TLC-generated plans")
 	out := flag.String("out", "bitmap.ndjson", "traces")
@@ -1206,10 +1229,9 @@ func main() {
 	if *cold {
 		if *seed%2 == 0 {
 			s := r.shapes64(1)
-			r.raceRound(64, s[len(s)-1], "cold64", 8, 5)
+			r.raceRound(64, s[len(s)-1], "cold64", 8, 40)
 		} else {
-			s := r.shapes1024(1)
-			r.raceRound(1024, s[len(s)-1], "cold1024", 8, 4)
+			r.raceRound(1024, r.smallShape1024(), "cold1024", 8, 25)
 		}
 		r.flush()
 		w.Close()
@@ -1249,10 +1271,9 @@ func main() {
 		r.history(64, *nops)
 	}
 	for i := 0; i < *nrace; i++ {
-		s1 := r.shapes1024(1)
-		r.raceRound(1024, s1[r.rng.Intn(len(s1))], "race1024", 6, 4)
+		r.raceRound(1024, r.smallShape1024(), "race1024", 8, 25)
 		s2 := r.shapes64(1)
-		r.raceRound(64, s2[r.rng.Intn(len(s2))], "race64", 6, 6)
+		r.raceRound(64, s2[r.rng.Intn(len(s2))], "race64", 8, 50)
 	}
 	r.flush()
 	w.Close()
